@@ -9,7 +9,7 @@ HOME = os.path.dirname(os.path.dirname(os.path.abspath(__file__)))
 # id -> (technique, level text, level note, design ref)
 CHECKS = {
     "C01": (
-        "Hypothesis grammar-based generation of (Draft-6 schema, schema-directed values); differential oracle = own reference Draft-6 validator (three-valued), self-checked against jsonschema; schemas parsed directly or through the documented loader; a late format-registration round",
+        "Hypothesis grammar-based generation of (Draft-6 schema, schema-directed values); differential oracle = own reference Draft-6 validator (three-valued), self-checked against jsonschema; schemas parsed directly or through the documented loader; a late format-registration round; thorough adds coverage-guided atheris (libFuzzer) campaigns over the same strategy with the oracle inside the target",
         "Generated-input search: every (schema, value) verdict of the parsed element is compared with an independent Draft-6 reference validator; held on everything explored within depth<=4, containers<=4.",
         "Trusted: vlib/ref6.py reading of Draft 6 (cross-checked per case against jsonschema.Draft6Validator), comfortable number range, dialect-independent regex pool.",
         "DESIGN.md 4/C01",
@@ -27,7 +27,7 @@ CHECKS = {
         "DESIGN.md 4/C03",
     ),
     "C04": (
-        "Hypothesis generation of container-biased schemas/recipes x accepted values; oracle: structural read-back of every input member through the public access paths plus nothing-invented check",
+        "Hypothesis generation of container-biased schemas/recipes x accepted values; oracle: structural read-back of every input member through the public access paths plus nothing-invented check; thorough adds coverage-guided atheris (libFuzzer) campaigns over the same strategy with the oracle inside the target",
         "Generated-input search: for every accepted value the returned model is walked through attribute/item access and compared member by member with the input (int->float tolerated only under number schemas).",
         "Trusted: the read-back walker vlib/readback.py; values limited to depth<=4.",
         "DESIGN.md 4/C04",
@@ -39,7 +39,7 @@ CHECKS = {
         "DESIGN.md 4/C05",
     ),
     "C06": (
-        "Hypothesis generation of supported schemas; round-trip oracle: serialize(parse(materialize(serialize(parse(S))))) == serialize(parse(S)) and exec(serialize_python) classes == parsed classes",
+        "Hypothesis generation of supported schemas; round-trip oracle: serialize(parse(materialize(serialize(parse(S))))) == serialize(parse(S)) and exec(serialize_python) classes == parsed classes; thorough adds coverage-guided atheris (libFuzzer) campaigns over the same strategy with the oracle inside the target",
         "Generated-input search for the fixpoint property on the parser's image, through the documented materialize + title_labeller pipeline.",
         "Trusted: json_ref_dict materialize; comparison is type-faithful, key order ignored, required compared as a set.",
         "DESIGN.md 4/C06",
